@@ -68,7 +68,11 @@ Definition check_case (c : case) : verdict :=
         && forallb (fun t => Qleb lo t && Qleb t hi) ts
         && forallb (fun t => Qleb (dist2 (poly_point ks P (warp ks W t)) x) bound) ts in
       (* correspondence: the same SET of parameters up to 1e-6 (the library may repeat a parameter found from two starts) *)
-      let corr := forallb (fun t => existsb (fun tm => Qleb (Qabs (t - tm)) slack) model) ts
+      (* every exact minimiser is returned; a returned parameter is either (within 1e-6 of) an exact minimiser or a NEAR tie:
+         a candidate (knot or foot point) whose distance is within 1e-6 of the minimum - the library keeps those, as the
+         property allows ("all at the same distance within 1e-6") *)
+      let corr := forallb (fun t => existsb (fun tm => Qleb (Qabs (t - tm)) slack) model
+                                    || Qleb (dist2 (poly_point ks P (warp ks W t)) x) bound) ts
                   && forallb (fun tm => existsb (fun t => Qleb (Qabs (t - tm)) slack) ts) model in
       mkv corr prop
   end.
